@@ -116,6 +116,7 @@ C28_Design == Inv_AppIndex(s) /\ Inv_C28(s, cf, gh.relStable)
 C32_Design == Inv_Claims(s, h)
 C36_Design == Inv_C36(s)
 C37_Design == Inv_C37(s, h)
+Params_Design == Inv_ParamsCoherent(s, cf)
 All_Design == Inv_All(s, cf, h, t, gh.donN, gh.donA, gh.relStable)
 
 \* step properties across modules
